@@ -1327,6 +1327,13 @@ class Engine:
             con = C.find_method(b.cls, attr)
             if con is not None and con.options.get("property"):
                 return self.call_contract(con, [base], {}, node, frame)
+            if con is None:
+                loc = self.vf.find_method_def(b.cls, attr)
+                if loc is not None and any((isinstance(d, ast.Name) and d.id in ("property", "cached_property"))
+                                           or (isinstance(d, ast.Attribute) and d.attr in ("cached_property",))
+                                           for d in loc[1].decorator_list):
+                    # property without contract: evaluate as an untracked getter
+                    return self.models.opaque_method(self, base, b, attr, [], {}, node)
             if con is not None or self.vf.has_method(b.cls, attr):
                 return VFunc("bound", recv=base, name=attr)
             cs = C.CLASS_SPECS.get(b.cls)
